@@ -5,6 +5,7 @@ import PfdlModel.ExprParse
 import PfdlModel.Surface
 import PfdlModel.Denter
 import PfdlModel.Syntax
+import PfdlModel.Front
 /-! Line protocol driver: one JSON case per input line, one JSON result per output line. -/
 open Lean Pfdl
 
@@ -495,6 +496,15 @@ def runSyntax (j : Json) : Except String Json := do
   | some ds => pure (Json.mkObj [("ok", .bool true), ("defs", Json.arr (ds.map synDefJson).toArray)])
   | none => pure (Json.mkObj [("ok", .bool false)])
 
+/-- the whole front end on the real token stream: parse, then validate -/
+def runVText (j : Json) : Except String Json := do
+  let toks ← (← getArr (← field j "toks")).toList.mapM synTokOf
+  match Pfdl.Front.validateTokens toks with
+  | .syntaxError => pure (Json.mkObj [("parsed", .bool false)])
+  | .raised => pure (Json.mkObj [("parsed", .bool true), ("raised", .bool true), ("errors", Json.arr #[])])
+  | .verdict errs => pure (Json.mkObj [("parsed", .bool true), ("raised", .bool false),
+      ("errors", Json.arr (errs.map (fun e => Json.arr #[.str e.kind, Json.num (JsonNumber.fromNat e.line)])).toArray)])
+
 def handle (line : String) : String :=
   match Json.parse line with
   | .error e => (Json.mkObj [("error", .str s!"parse: {e}")]).compress
@@ -506,6 +516,7 @@ def handle (line : String) : String :=
       | "expr" => runExpr j
       | "denter" => runDenter j
       | "syntax" => runSyntax j
+      | "vtext" => runVText j
       | _ => .error s!"unknown request kind {k}"
     match r with
     | .ok out => out.compress
